@@ -858,6 +858,33 @@ func c19(c *core.Ctx) {
 			{
 				words := map[string]bool{}
 				collect := func(f *ssa.Function) {
+					// a lookup in a package-level table whose keys are constants
+					core.Instrs(f, func(in ssa.Instruction) {
+						lk, ok := in.(*ssa.Lookup)
+						if !ok {
+							return
+						}
+						ld, ok := core.Strip(lk.X).(*ssa.UnOp)
+						if !ok {
+							return
+						}
+						g, ok := ld.X.(*ssa.Global)
+						if !ok || g.Object() == nil {
+							return
+						}
+						lit, ok := p.VarInit(g.Object()).(*ast.CompositeLit)
+						if !ok {
+							return
+						}
+						_, pk := p.FileOf(g.Pos())
+						for _, el := range lit.Elts {
+							if kv, isKV := el.(*ast.KeyValueExpr); isKV && pk != nil {
+								if sv := constStr(pk.TypesInfo, kv.Key); sv != "" {
+									words[sv] = true
+								}
+							}
+						}
+					})
 					for _, ef := range core.EdgeFactsOf(f) {
 						if ef.Fact.Op != token.EQL {
 							continue
